@@ -35,15 +35,26 @@ class Server(object):
         # type: (dict[str, t.Any]) -> None
         self.project = Project(config['sources'], dyn_modules=config.get('dyn_modules'))
 
+    # what a client may ask for (not whatever attribute the object has)
+    methods = ('configure', 'assist', 'location', 'lint', 'eval')
+
     def process(self, name, args, kwargs):
         # type: (str, tuple[t.Any], dict[str, t.Any]) -> tuple[t.Any, bool]
         try:
             is_ok = True
+            if name not in self.methods:
+                raise AttributeError('Unknown method: {!r}'.format(name))
             result = getattr(self, name)(*args, **kwargs)
-        except Exception as e:
+        except BaseException as e:
+            # whatever a request raises (a SystemExit from evaluated code
+            # included) is the caller's to see: the server goes on
             logger.exception('%s error', name)
             is_ok = False
-            result = e.__class__.__name__, str(e)
+            try:
+                message = str(e)
+            except Exception:
+                message = '<no message: __str__ of the exception failed>'
+            result = e.__class__.__name__, message
 
         # logger.error('PROCESS %r %r %r: %r', name, args, kwargs, result)
         return result, is_ok
